@@ -16,6 +16,9 @@ Variable inv_arclen : PathSeg T -> T -> T.
 Variable dashes : list T.
 Variable init : Phase T.
 
+(** Rust's [==] on the points that occur is reflexive (no NaN coordinates) *)
+Hypothesis pt_neb_refl : forall p : Point T, pt_neb p p = false.
+
 Notation DSt := (DS T).
 Notation tickF := (tick arclen inv_arclen fixes_all dashes init).
 Notation runF := (run arclen inv_arclen fixes_all dashes init).
@@ -74,9 +77,10 @@ Proof. intros; eapply run_mono; eauto. Qed.
 
 
 (** ** States, written out *)
-Definition mk (els : list (PathEl T)) (cp : bool) (ph : Phase T) (st : DashState) (seg : PathSeg T)
+Definition mkg (idone : bool) (els : list (PathEl T)) (cp : bool) (ph : Phase T) (st : DashState) (seg : PathSeg T)
     (t srem : T) (start last : Point T) (S : list (PathEl T)) (six : nat) : DSt :=
-  mkDS els false cp (p_ix ph) (p_act ph) st seg t (p_rem ph) srem start last S six.
+  mkDS els idone cp (p_ix ph) (p_act ph) st seg t (p_rem ph) srem start last S six.
+Notation mk := (mkg false).
 
 (** the phase after a switch *)
 Definition ph_next (ph : Phase T) : Phase T :=
@@ -186,6 +190,686 @@ Proof.
       eapply steps_emit. { apply tick_switch_W; auto. }
       eapply IHfuel; eauto.
     + intros X; inversion X; subst. constructor.
+Qed.
+
+
+(** ** [get_input] on written-out states *)
+
+Definition el_seg (last : Point T) (e : PathEl T) : option (PathSeg T * Point T) :=
+  match e with
+  | LineTo p1 => Some (SegLine (mkLine last p1), p1)
+  | QuadTo p1 p2 => Some (SegQuad (mkQuad last p1 p2), p2)
+  | CurveTo p1 p2 p3 => Some (SegCubic (mkCubic last p1 p2 p3), p3)
+  | _ => None
+  end.
+
+Lemma gil_nil els ph st seg t srem start last S six :
+  gil [] (mk els false ph st seg t srem start last S six)
+  = mkg true [] false ph FromStash seg t srem start last S six.
+Proof. reflexivity. Qed.
+
+Lemma gil_move p r els ph st seg t srem start last S six :
+  gil (MoveTo p :: r) (mk els false ph st seg t srem start last S six)
+  = gil r (mk r false init (if is_nil S then st else FromStash) seg t srem p p S six).
+Proof. simpl. destruct S; reflexivity. Qed.
+
+Lemma gil_seg e r seg' p1 els ph st seg t srem start last S six :
+  el_seg last e = Some (seg', p1) ->
+  gil (e :: r) (mk els false ph st seg t srem start last S six)
+  = mk r false ph st seg' f0 (arclen seg') start p1 S six.
+Proof. destruct e; simpl; intros X; inversion X; subst; reflexivity. Qed.
+
+Lemma gil_close_seg r els ph st seg t srem start last S six :
+  pt_neb last start = true ->
+  gil (ClosePath :: r) (mk els false ph st seg t srem start last S six)
+  = mk r true ph st (SegLine (mkLine last start)) f0 (arclen (SegLine (mkLine last start))) start start S six.
+Proof. intros E. simpl. rewrite E. reflexivity. Qed.
+
+Lemma gil_close_direct r els ph st seg t srem start last S six :
+  pt_neb last start = false ->
+  gil (ClosePath :: r) (mk els false ph st seg t srem start last S six)
+  = set_cur_t f0 (handle_closepath fixes_all init (mk r true ph st seg t srem start last S six)).
+Proof. intros E. simpl. rewrite E. reflexivity. Qed.
+
+Lemma gil_pending r ph st seg t srem start last S six :
+  gil r (mk r true ph st seg t srem start last S six)
+  = set_cur_t f0 (handle_closepath fixes_all init (mk r true ph st seg t srem start last S six)).
+Proof. destruct r; reflexivity. Qed.
+
+Lemma hc_tostash r ph seg t srem start last S six :
+  set_cur_t f0 (handle_closepath fixes_all init (mk r true ph ToStash seg t srem start last S six))
+  = mk r true init FromStash seg f0 srem start last (S ++ [ClosePath]) six.
+Proof. reflexivity. Qed.
+
+Lemma hc_working r ph seg t srem start last S six :
+  set_cur_t f0 (handle_closepath fixes_all init (mk r true ph Working seg t srem start last S six))
+  = mk r true init FromStash seg f0 srem start last S (if p_act ph then 1%nat else six).
+Proof. destruct ph as [ix rem act]; destruct act; reflexivity. Qed.
+
+Lemma hc_need r ph seg t srem start last S six :
+  set_cur_t f0 (handle_closepath fixes_all init (mk r true ph NeedInput seg t srem start last S six))
+  = mk r true init FromStash seg f0 srem start last S six.
+Proof. destruct ph as [ix rem act]; destruct act; reflexivity. Qed.
+
+Lemma hc_fromstash r ph seg t srem start last S six :
+  set_cur_t f0 (handle_closepath fixes_all init (mk r true ph FromStash seg t srem start last S six))
+  = mk r true init FromStash seg f0 srem start last S six.
+Proof. destruct ph as [ix rem act]; destruct act; reflexivity. Qed.
+
+(** ** Replaying the stash *)
+Lemma skipn_S_tl (A : Type) (l : list A) : forall n, skipn (Datatypes.S n) l = tl (skipn n l).
+Proof.
+  induction l; intros n. { destruct n; reflexivity. }
+  destruct n. { reflexivity. }
+  change (skipn (Datatypes.S (Datatypes.S n)) (a :: l)) with (skipn (Datatypes.S n) l).
+  rewrite IHl. reflexivity.
+Qed.
+
+Lemma tick_replay idone els cp ph seg t srem start last S six el :
+  nth_error S six = Some el ->
+  tickF (mkg idone els cp ph FromStash seg t srem start last S six)
+  = TEmit el (mkg idone els cp ph FromStash seg t srem start last S (Datatypes.S six)).
+Proof. intros E. unfold tick; simpl. rewrite E. reflexivity. Qed.
+
+Lemma steps_replay idone els cp ph seg t srem start last S : forall six,
+  steps (mkg idone els cp ph FromStash seg t srem start last S six)
+        (length (skipn six S)) (skipn six S)
+        (mkg idone els cp ph FromStash seg t srem start last S (six + length (skipn six S))).
+Proof.
+  intros six. remember (length (skipn six S)) as n eqn:En. revert six En.
+  induction n; intros six En.
+  - destruct (skipn six S) eqn:E; [|discriminate]. rewrite Nat.add_0_r. constructor.
+  - destruct (skipn six S) as [|el rest] eqn:E; [discriminate|].
+    assert (Hn : nth_error S six = Some el).
+    { rewrite <- (firstn_skipn six S) at 1. rewrite E.
+      assert (Hl : length (firstn six S) = six).
+      { apply firstn_length_le. destruct (le_lt_dec six (length S)); auto.
+        rewrite skipn_all2 in E by lia. discriminate. }
+      rewrite nth_error_app2 by lia. rewrite Hl, Nat.sub_diag. reflexivity. }
+    assert (Hr : skipn (Datatypes.S six) S = rest).
+    { rewrite skipn_S_tl, E. reflexivity. }
+    eapply steps_emit. { apply tick_replay; eauto. }
+    replace (six + Datatypes.S n)%nat with (Datatypes.S six + n)%nat by lia.
+    simpl in En. injection En as En.
+    rewrite <- Hr. apply IHn. rewrite Hr. exact En.
+Qed.
+
+Lemma nth_error_after_replay (S : list (PathEl T)) six : nth_error S (six + length (skipn six S)) = None.
+Proof. apply nth_error_None. rewrite skipn_length. lia. Qed.
+
+(** the iteration after the replay *)
+Lemma tick_clear_done els cp ph seg t srem start last S six :
+  nth_error S six = None ->
+  tickF (mkg true els cp ph FromStash seg t srem start last S six) = TDone.
+Proof. intros E. unfold tick; simpl. rewrite E. reflexivity. Qed.
+
+Lemma tick_clear_close els ph seg t srem start last S six :
+  nth_error S six = None ->
+  tickF (mk els true ph FromStash seg t srem start last S six)
+  = TCont (mk els false ph NeedInput seg t srem start last [] 0).
+Proof. intros E. unfold tick; simpl. rewrite E. reflexivity. Qed.
+
+Lemma tick_clear_move els ph seg t srem start last S six :
+  nth_error S six = None ->
+  tickF (mk els false ph FromStash seg t srem start last S six)
+  = TCont (mk els false ph ToStash seg t srem start last [] 0).
+Proof. intros E. unfold tick; simpl. rewrite E. reflexivity. Qed.
+
+(** the last iteration on a segment: the rest of the segment, then [get_input] *)
+Lemma tick_final_W els cp ph seg t srem start last S six :
+  (p_rem ph <? srem) = false ->
+  tickF (mk els cp ph Working seg t srem start last S six)
+  = let s' := gil els (mk els cp (ph_final ph srem) Working seg t srem start last S six) in
+    match final_els seg t ph with
+    | el :: _ => TEmit el s'
+    | [] => TCont s'
+    end.
+Proof.
+  intros E. destruct ph as [ix rem act]. unfold mkg, tick, step, final_els, ph_final; simpl in *. rewrite E.
+  destruct act; reflexivity.
+Qed.
+
+Lemma tick_final_S els cp ph seg t srem start last e S six :
+  (p_rem ph <? srem) = false -> p_act ph = true ->
+  tickF (mk els cp ph ToStash seg t srem start last (e :: S) six)
+  = TCont (gil els (mk els cp (ph_final ph srem) ToStash seg t srem start last ((e :: S) ++ final_els seg t ph) six)).
+Proof.
+  intros E A. destruct ph as [ix rem act]. simpl in A; subst act.
+  unfold mkg, tick, step, final_els, ph_final; simpl in *. rewrite E. reflexivity.
+Qed.
+
+(** the iteration in state NeedInput *)
+Definition after_need (s' : DSt) : DSt :=
+  if is_NeedInput (state s') then set_state ToStash s' else s'.
+
+Lemma tick_need els ph seg t srem start last S six :
+  tickF (mk els false ph NeedInput seg t srem start last S six)
+  = let s' := gil els (mk els false ph NeedInput seg t srem start last S six) in
+    if input_done s' then TDone else TCont (after_need s').
+Proof.
+  unfold tick, after_need; simpl. unfold get_input; simpl.
+  match goal with |- context [input_done ?x] => destruct (input_done x) end; auto.
+  match goal with |- context [is_NeedInput ?x] => destruct (is_NeedInput x) end; auto.
+Qed.
+
+
+(** ** The incremental form of the specification *)
+
+(** what is known about the sub-path being dashed: nothing emitted yet / the first dash is still
+    unbroken and withheld / the first dash (possibly empty) is complete and withheld *)
+Inductive Mode := Fresh | Stashing (S : list (PathEl T)) | Broken (S : list (PathEl T)).
+
+Definition mode0 (m : Mode) (ph : Phase T) (seg : PathSeg T) : Mode :=
+  match m with
+  | Fresh => if p_act ph then Stashing [MoveTo (seg_start seg)] else Broken []
+  | _ => m
+  end.
+
+Definition spec_seg (fuel : nat) (seg : PathSeg T) (m : Mode) (ph : Phase T)
+  : option (list (PathEl T) * Mode * Phase T) :=
+  match seg_switches fuel seg f0 (arclen seg) ph with
+  | None => None
+  | Some (sw, t', srem', phm) =>
+      let fin := final_els seg t' phm in
+      let ph' := ph_final phm srem' in
+      Some (match mode0 m ph seg with
+            | Stashing l =>
+                match sw with
+                | [] => ([], Stashing (l ++ fin), ph')
+                | e :: r => (r ++ fin, Broken (l ++ [e]), ph')
+                end
+            | Broken l => (sw ++ fin, Broken l, ph')
+            | Fresh => ([], Fresh, ph')
+            end)
+  end.
+
+Definition flush_open (m : Mode) : list (PathEl T) :=
+  match m with Fresh => [] | Stashing l => l | Broken l => l end.
+Definition flush_closed (m : Mode) (ph : Phase T) : list (PathEl T) :=
+  match m with
+  | Fresh => []
+  | Stashing l => l ++ [ClosePath]
+  | Broken l => if p_act ph then tl l else l
+  end.
+
+Fixpoint spec_go (fuel : nat) (els : list (PathEl T)) (start last : Point T) (m : Mode) (ph : Phase T)
+  : option (list (PathEl T)) :=
+  match els with
+  | [] => Some (flush_open m)
+  | MoveTo p :: r =>
+      match spec_go fuel r p p Fresh init with
+      | Some o => Some (flush_open m ++ o)
+      | None => None
+      end
+  | ClosePath :: r =>
+      if pt_neb last start then
+        match spec_seg fuel (SegLine (mkLine last start)) m ph with
+        | None => None
+        | Some (o1, m', ph') =>
+            match spec_go fuel r start start Fresh init with
+            | Some o => Some (o1 ++ flush_closed m' ph' ++ o)
+            | None => None
+            end
+        end
+      else
+        match spec_go fuel r start last Fresh init with
+        | Some o => Some (flush_closed m ph ++ o)
+        | None => None
+        end
+  | e :: r =>
+      match el_seg last e with
+      | Some (seg, p1) =>
+          match spec_seg fuel seg m ph with
+          | None => None
+          | Some (o1, m', ph') =>
+              match spec_go fuel r start p1 m' ph' with
+              | Some o => Some (o1 ++ o)
+              | None => None
+              end
+          end
+      | None => None
+      end
+  end.
+
+(** ** Machine states that correspond to the incremental specification *)
+
+(** [Cfg cp s W m P start last ph els]: [s] is about to run [get_input] on [els]
+    ([W]: from the NeedInput arm of [next]); [P] is still to be replayed from the stash *)
+Inductive Cfg : bool -> DSt -> bool -> Mode -> list (PathEl T) -> Point T -> Point T -> Phase T
+                -> list (PathEl T) -> Prop :=
+| cfg_stashing cp els ph seg t srem start last e S :
+    p_act ph = true ->
+    Cfg cp (mk els cp ph ToStash seg t srem start last (e :: S) 0) false (Stashing (e :: S)) [] start last ph els
+| cfg_broken cp els ph seg t srem start last S :
+    (S <> [] \/ p_act init = false) ->
+    Cfg cp (mk els cp ph Working seg t srem start last S 0) false (Broken S) [] start last ph els
+| cfg_fresh_flush els seg t srem start last e P :
+    pt_neb last start = false ->
+    Cfg false (mk els false init FromStash seg t srem start last (e :: P) 0) false Fresh (e :: P) start last init els
+| cfg_fresh_need els seg t srem start last :
+    pt_neb last start = false ->
+    Cfg false (mk els false init NeedInput seg t srem start last [] 0) true Fresh [] start last init els
+| cfg_fresh_working els seg t srem start last :
+    pt_neb last start = false ->
+    p_act init = false ->
+    Cfg false (mk els false init Working seg t srem start last [] 0) false Fresh [] start last init els.
+
+Definition After (W : bool) (s' : DSt) (o : list (PathEl T)) (n : nat) : Prop :=
+  if W then (if input_done s' then o = [] /\ n = 0%nat else Runs (after_need s') o n)
+  else Runs s' o n.
+
+(** ** One segment *)
+
+Lemma seg_W fuel r cp seg start last S : forall t srem ph sw t' srem' phm,
+  seg_switches fuel seg t srem ph = Some (sw, t', srem', phm) ->
+  forall o n,
+  Runs (gil r (mk r cp (ph_final phm srem') Working seg t' srem' start last S 0)) o n ->
+  Runs (mk r cp ph Working seg t srem start last S 0) (sw ++ final_els seg t' phm ++ o) (length sw + (1 + n)).
+Proof.
+  intros t srem ph sw t' srem' phm Hs o n Hr.
+  eapply steps_Runs. { eapply steps_switches_W; eauto. }
+  pose proof (seg_switches_final _ _ _ _ _ Hs) as Hf.
+  pose proof (tick_final_W r cp phm seg t' srem' start last S 0 Hf) as Ht. cbv zeta in Ht.
+  destruct (final_els seg t' phm) as [|el l] eqn:Ef.
+  - simpl. change (Runs (mk r cp phm Working seg t' srem' start last S 0) ([] ++ o) (1 + n)).
+    eapply steps_Runs; [eapply steps_one_cont; eauto|exact Hr].
+  - assert (l = []). { unfold final_els in Ef. destruct (p_act phm); inversion Ef; auto. } subst l.
+    change (Runs (mk r cp phm Working seg t' srem' start last S 0) ([el] ++ o) (1 + n)).
+    eapply steps_Runs; [eapply steps_one_emit; eauto|exact Hr].
+Qed.
+
+
+Lemma seg_switches_nil fuel seg t srem ph t' srem' phm :
+  seg_switches fuel seg t srem ph = Some ([], t', srem', phm) ->
+  t' = t /\ srem' = srem /\ phm = ph /\ (p_rem ph <? srem) = false.
+Proof.
+  destruct fuel; simpl; destruct (p_rem ph <? srem) eqn:E; try discriminate.
+  - intros X; inversion X; auto.
+  - destruct (seg_switches fuel seg (switch_t seg t ph) (srem - p_rem ph) (ph_next ph)) as [[[[a b] c] d]|]; discriminate.
+  - intros X; inversion X; auto.
+Qed.
+
+Lemma seg_switches_cons fuel seg t srem ph x rest t' srem' phm :
+  seg_switches fuel seg t srem ph = Some (x :: rest, t', srem', phm) ->
+  (p_rem ph <? srem) = true /\ x = switch_el seg t ph /\
+  exists f, seg_switches f seg (switch_t seg t ph) (srem - p_rem ph) (ph_next ph) = Some (rest, t', srem', phm).
+Proof.
+  destruct fuel; simpl; destruct (p_rem ph <? srem) eqn:E; try discriminate.
+  destruct (seg_switches fuel seg (switch_t seg t ph) (srem - p_rem ph) (ph_next ph)) as [[[[a b] c] d]|] eqn:E2; [|discriminate].
+  intros X; inversion X; subst. repeat split; auto. exists fuel; auto.
+Qed.
+
+(** number of withheld elements: each has been stashed in one iteration and costs one more *)
+Definition wt (m : Mode) : nat := length (flush_open m).
+
+(** a segment while the first dash is still unbroken *)
+Lemma seg_stashing fuel cp r seg start last ph e S t srem sw t' srem' phm :
+  p_act ph = true ->
+  seg_switches fuel seg t srem ph = Some (sw, t', srem', phm) ->
+  let fin := final_els seg t' phm in
+  let ph' := ph_final phm srem' in
+  let s := mk r cp ph ToStash seg t srem start last (e :: S) 0 in
+  match sw with
+  | [] => exists k sF, Cfg cp sF false (Stashing ((e :: S) ++ fin)) [] start last ph' r /\
+            (forall o n, Runs (gil r sF) o n -> Runs s ([] ++ o) (k + n)) /\ (k <= 1)%nat
+  | x :: rest => exists k sF, Cfg cp sF false (Broken ((e :: S) ++ [x])) [] start last ph' r /\
+            (forall o n, Runs (gil r sF) o n -> Runs s ((rest ++ fin) ++ o) (k + n)) /\
+            (k <= length rest + 2)%nat
+  end.
+Proof.
+  intros A Hs fin ph' s. destruct sw as [|x rest].
+  - apply seg_switches_nil in Hs. destruct Hs as (-> & -> & -> & Hf).
+    exists 1%nat. eexists. split; [|split; [|lia]].
+    + simpl. eapply cfg_stashing. exact A.
+    + intros o n Hr. eapply steps_Runs; [|exact Hr].
+      eapply steps_one_cont. subst s. rewrite (tick_final_S r cp ph seg t srem start last e S 0 Hf A). reflexivity.
+  - apply seg_switches_cons in Hs. destruct Hs as (Hc & -> & f & Hs).
+    exists (1 + (length rest + 1))%nat. eexists. split; [|split; [|lia]].
+    + eapply cfg_broken. left. destruct S; discriminate.
+    + intros o n Hr. replace (1 + (length rest + 1) + n)%nat with (1 + (length rest + (1 + n)))%nat by lia.
+      change ((rest ++ fin) ++ o) with ([] ++ ((rest ++ fin) ++ o)).
+      eapply steps_Runs. { eapply steps_one_cont. subst s. apply tick_switch_S; auto. }
+      rewrite <- app_assoc. eapply seg_W; eauto.
+Qed.
+
+(** a segment once the first dash is complete *)
+Lemma seg_broken fuel cp r seg start last ph S t srem sw t' srem' phm :
+  (S <> [] \/ p_act init = false) ->
+  seg_switches fuel seg t srem ph = Some (sw, t', srem', phm) ->
+  exists k sF, Cfg cp sF false (Broken S) [] start last (ph_final phm srem') r /\
+    (forall o n, Runs (gil r sF) o n ->
+      Runs (mk r cp ph Working seg t srem start last S 0) ((sw ++ final_els seg t' phm) ++ o) (k + n)) /\
+    (k <= length sw + 1)%nat.
+Proof.
+  intros HS Hs. exists (length sw + 1)%nat. eexists. split; [|split; [|lia]].
+  - eapply cfg_broken. exact HS.
+  - intros o n Hr. replace (length sw + 1 + n)%nat with (length sw + (1 + n))%nat by lia.
+    rewrite <- app_assoc. eapply seg_W; eauto.
+Qed.
+
+(** the states in which a freshly loaded segment is met *)
+Inductive LCfg (cp : bool) (r : list (PathEl T)) (seg : PathSeg T) (start last : Point T)
+  : DSt -> Mode -> Phase T -> Prop :=
+| l_stashing ph e S : p_act ph = true ->
+    LCfg cp r seg start last (mk r cp ph ToStash seg f0 (arclen seg) start last (e :: S) 0) (Stashing (e :: S)) ph
+| l_broken ph S : (S <> [] \/ p_act init = false) ->
+    LCfg cp r seg start last (mk r cp ph Working seg f0 (arclen seg) start last S 0) (Broken S) ph
+| l_fresh_tostash :
+    LCfg cp r seg start last (mk r cp init ToStash seg f0 (arclen seg) start last [] 0) Fresh init
+| l_fresh_working : p_act init = false ->
+    LCfg cp r seg start last (mk r cp init Working seg f0 (arclen seg) start last [] 0) Fresh init.
+
+Lemma seg_cfg fuel cp r seg start last s m ph o1 m' ph' :
+  LCfg cp r seg start last s m ph ->
+  spec_seg fuel seg m ph = Some (o1, m', ph') ->
+  exists k sF, Cfg cp sF false m' [] start last ph' r /\
+    (forall o n, Runs (gil r sF) o n -> Runs s (o1 ++ o) (k + n)) /\
+    (k + wt m <= length o1 + wt m' + 2)%nat.
+Proof.
+  intros HL Hs. unfold spec_seg in Hs.
+  destruct (seg_switches fuel seg f0 (arclen seg) ph) as [[[[sw t'] srem'] phm]|] eqn:E; [|discriminate].
+  destruct HL as [ph e S A|ph S HS| |A].
+  - simpl in Hs. pose proof (@seg_stashing fuel cp r seg start last ph e S _ _ _ _ _ _ A E) as L. cbv zeta in L.
+    destruct sw as [|x rest]; inversion Hs; subst; destruct L as (k & sF & HC & HR & HB);
+      exists k, sF; (split; [exact HC|split; [exact HR|]]); unfold wt; simpl; rewrite ?app_length; simpl; lia.
+  - simpl in Hs. inversion Hs; subst.
+    destruct (@seg_broken fuel cp r seg start last ph S _ _ _ _ _ _ HS E) as (k & sF & HC & HR & HB).
+    exists k, sF. split; [exact HC|split; [exact HR|]]. unfold wt; simpl. rewrite app_length. lia.
+  - simpl in Hs. destruct (p_act init) eqn:A.
+    + pose proof (@seg_stashing fuel cp r seg start last init (MoveTo (seg_start seg)) [] _ _ _ _ _ _ A E) as L. cbv zeta in L.
+      destruct sw as [|x rest]; inversion Hs; subst.
+      * destruct L as (k & sF & HC & HR & HB). exists (1 + k)%nat, sF. split; [exact HC|split].
+        { intros o n Hr. specialize (HR o n Hr).
+          replace (1 + k + n)%nat with (1 + (k + n))%nat by lia.
+          change ([] ++ o) with ([] ++ ([] ++ o)).
+          eapply steps_Runs; [|exact HR]. eapply steps_one_cont. apply tick_first_on; auto. }
+        { unfold wt; simpl. lia. }
+      * destruct L as (k & sF & HC & HR & HB). exists (1 + k)%nat, sF. split; [exact HC|split].
+        { intros o n Hr. specialize (HR o n Hr).
+          replace (1 + k + n)%nat with (1 + (k + n))%nat by lia.
+          change ((rest ++ final_els seg t' phm) ++ o) with ([] ++ ((rest ++ final_els seg t' phm) ++ o)).
+          eapply steps_Runs; [|exact HR]. eapply steps_one_cont. apply tick_first_on; auto. }
+        { unfold wt; simpl. rewrite app_length. lia. }
+    + inversion Hs; subst.
+      destruct (@seg_broken fuel cp r seg start last init [] _ _ _ _ _ _ (or_intror A) E) as (k & sF & HC & HR & HB).
+      exists (1 + k)%nat, sF. split; [exact HC|split].
+      { intros o n Hr. specialize (HR o n Hr).
+        replace (1 + k + n)%nat with (1 + (k + n))%nat by lia.
+        change ((sw ++ final_els seg t' phm) ++ o) with ([] ++ ((sw ++ final_els seg t' phm) ++ o)).
+        eapply steps_Runs; [|exact HR]. eapply steps_one_cont. apply tick_first_off; auto. }
+      { unfold wt; simpl. rewrite app_length. lia. }
+  - simpl in Hs. rewrite A in Hs. inversion Hs; subst.
+    destruct (@seg_broken fuel cp r seg start last init [] _ _ _ _ _ _ (or_intror A) E) as (k & sF & HC & HR & HB).
+    exists k, sF. split; [exact HC|split; [exact HR|]]. unfold wt; simpl. rewrite app_length. lia.
+Qed.
+
+(** ** Closing, ending *)
+
+Lemma need_run els ph seg t srem start last o n :
+  After true (gil els (mk els false ph NeedInput seg t srem start last [] 0)) o n ->
+  Runs (mk els false ph NeedInput seg t srem start last [] 0) o (1 + n).
+Proof.
+  unfold After. intros HA.
+  pose proof (tick_need els ph seg t srem start last [] 0) as Ht. cbv zeta in Ht.
+  destruct (input_done (gil els (mk els false ph NeedInput seg t srem start last [] 0))).
+  - destruct HA as [-> ->]. apply Runs_done. exact Ht.
+  - change o with ([] ++ o). eapply steps_Runs; [|exact HA]. eapply steps_one_cont. exact Ht.
+Qed.
+
+(** after [handle_closepath]: replay the stash from [six], then back to NeedInput *)
+Lemma close_from r seg t srem start last L six o n :
+  Runs (mk r false init NeedInput seg t srem start last [] 0) o n ->
+  Runs (mk r true init FromStash seg t srem start last L six) (skipn six L ++ o) (length (skipn six L) + (1 + n)).
+Proof.
+  intros Hr. eapply steps_Runs. { apply steps_replay. }
+  change o with ([] ++ o). eapply steps_Runs; [|exact Hr].
+  eapply steps_one_cont. apply tick_clear_close. apply nth_error_after_replay.
+Qed.
+
+Lemma final_from ph seg t srem start last L six :
+  Runs (mkg true [] false ph FromStash seg t srem start last L six) (skipn six L) (length (skipn six L) + 1).
+Proof.
+  rewrite <- (app_nil_r (skipn six L)) at 1.
+  eapply steps_Runs. { apply steps_replay. }
+  apply Runs_done. apply tick_clear_done. apply nth_error_after_replay.
+Qed.
+
+Lemma close_cfg r sF m start last ph :
+  Cfg true sF false m [] start last ph r ->
+  exists k seg t srem, (forall o n,
+    Runs (mk r false init NeedInput seg t srem start last [] 0) o n ->
+    Runs (gil r sF) (flush_closed m ph ++ o) (k + n)) /\ (k <= length (flush_closed m ph) + 1)%nat.
+Proof.
+  intros HC. inversion HC; subst.
+  - rewrite gil_pending, hc_tostash.
+    eexists. exists seg, f0, srem. split.
+    + intros o n Hr.
+      pose proof (@close_from r seg f0 srem start last ((e :: S) ++ [ClosePath]) 0 o n Hr) as L. simpl skipn in L.
+      simpl flush_closed. rewrite <- Nat.add_assoc. exact L.
+    + simpl. lia.
+  - rewrite gil_pending, hc_working.
+    assert (E : skipn (if p_act ph then 1%nat else 0%nat) S = if p_act ph then tl S else S).
+    { destruct (p_act ph); [destruct S|]; reflexivity. }
+    exists (length (if p_act ph then tl S else S) + 1)%nat, seg, f0, srem. split.
+    + intros o n Hr.
+      pose proof (@close_from r seg f0 srem start last S (if p_act ph then 1%nat else 0%nat) o n Hr) as L.
+      simpl flush_closed. rewrite E in L. rewrite <- Nat.add_assoc. exact L.
+    + simpl. lia.
+Qed.
+
+(** ** From a configuration to a loaded segment *)
+
+Definition loaded (cp : bool) (r : list (PathEl T)) (seg : PathSeg T) (p1 : Point T) (s : DSt) : DSt :=
+  mkDS r false cp (dash_ix s) (is_active s) (state s) seg f0 (dash_remaining s) (arclen seg)
+       (start_pt s) p1 (stash s) (stash_ix s).
+
+Lemma load_cfg r seg p1 s W m P start last ph els0 :
+  Cfg false s W m P start last ph els0 ->
+  exists k sl, LCfg false r seg start p1 sl m ph /\
+    (forall o n, Runs sl o n -> After W (loaded false r seg p1 s) (P ++ o) (k + n)) /\
+    (k <= length P + 1)%nat.
+Proof.
+  intros HC. inversion HC; subst; unfold loaded; simpl.
+  - exists 0%nat. eexists. split; [|split; [|lia]]. { apply l_stashing; eauto. } intros o n Hr. exact Hr.
+  - exists 0%nat. eexists. split; [|split; [|lia]]. { apply l_broken; eauto. } intros o n Hr. exact Hr.
+  - exists (length (e :: P0) + 1)%nat. eexists. split; [|split; [|simpl; lia]]. { apply l_fresh_tostash. }
+    intros o n Hr. unfold After.
+    change (Runs (mk r false init FromStash seg f0 (arclen seg) start p1 (e :: P0) 0) ((e :: P0) ++ o) (length (e :: P0) + 1 + n)).
+    rewrite <- Nat.add_assoc.
+    eapply steps_Runs. { apply (steps_replay false r false init seg f0 (arclen seg) start p1 (e :: P0) 0). }
+    change o with ([] ++ o). eapply steps_Runs; [|exact Hr].
+    eapply steps_one_cont. apply tick_clear_move. apply (nth_error_after_replay (e :: P0) 0).
+  - exists 0%nat. eexists. split; [|split; [|lia]]. { apply l_fresh_tostash. } intros o n Hr. exact Hr.
+  - exists 0%nat. eexists. split; [|split; [|lia]]. { apply l_fresh_working; auto. } intros o n Hr. exact Hr.
+Qed.
+
+Lemma gil_seg_loaded e r seg' p1 s W m P start last ph els0 :
+  Cfg false s W m P start last ph els0 ->
+  el_seg last e = Some (seg', p1) ->
+  gil (e :: r) s = loaded false r seg' p1 s.
+Proof. intros HC E. inversion HC; subst; erewrite gil_seg by eauto; reflexivity. Qed.
+
+(** ** The main simulation, with the count of iterations *)
+
+(** iterations still to come, against what they will emit and consume *)
+Definition bound (n : nat) (m : Mode) (P out els : list (PathEl T)) : Prop :=
+  (n + wt m + length P <= 2 * length (P ++ out) + 5 * length els + 1)%nat.
+
+Definition IHyp (fuel : nat) (r : list (PathEl T)) : Prop :=
+  forall s W m P start last ph out,
+    Cfg false s W m P start last ph r ->
+    spec_go fuel r start last m ph = Some out ->
+    exists n, After W (gil r s) (P ++ out) n /\ bound n m P out r.
+
+Lemma step_seg fuel e r seg p1 s W m P start last ph els0 o1 m' ph' o :
+  IHyp fuel r ->
+  Cfg false s W m P start last ph els0 ->
+  el_seg last e = Some (seg, p1) ->
+  spec_seg fuel seg m ph = Some (o1, m', ph') ->
+  spec_go fuel r start p1 m' ph' = Some o ->
+  exists n, After W (gil (e :: r) s) (P ++ o1 ++ o) n /\ bound n m P (o1 ++ o) (e :: r).
+Proof.
+  intros IH HC Eseg Hs Hg.
+  rewrite (@gil_seg_loaded e r seg p1 _ _ _ _ _ _ _ _ HC Eseg).
+  destruct (@load_cfg r seg p1 _ _ _ _ _ _ _ _ HC) as (k1 & sl & HL & HR1 & HB1).
+  edestruct seg_cfg as (k2 & sF & HC2 & HR2 & HB2); [exact HL|exact Hs|].
+  edestruct IH as (n & HA & HB); [exact HC2|exact Hg|]. unfold After in HA. simpl in HA.
+  exists (k1 + (k2 + n))%nat. split. { apply HR1. apply HR2. exact HA. }
+  unfold bound in *. simpl in HB. rewrite !app_length in *. simpl. lia.
+Qed.
+
+Lemma step_move fuel p r s W m P start last ph els0 o :
+  IHyp fuel r ->
+  Cfg false s W m P start last ph els0 ->
+  spec_go fuel r p p Fresh init = Some o ->
+  exists n, After W (gil (MoveTo p :: r) s) (P ++ flush_open m ++ o) n /\
+            bound n m P (flush_open m ++ o) (MoveTo p :: r).
+Proof.
+  intros IH HC Hg. inversion HC; subst; rewrite gil_move; simpl.
+  - edestruct IH as (n & HA & HB); [eapply cfg_fresh_flush; apply pt_neb_refl|exact Hg|].
+    exists n. split; [exact HA|]. unfold bound, wt in *. simpl in *. rewrite !app_length in *. simpl in *. lia.
+  - destruct S as [|e S'].
+    + destruct H0 as [H0|H0]; [congruence|].
+      edestruct IH as (n & HA & HB); [eapply cfg_fresh_working; [apply pt_neb_refl|exact H0]|exact Hg|].
+      exists n. split; [exact HA|]. unfold bound, wt in *. simpl in *. lia.
+    + edestruct IH as (n & HA & HB); [eapply cfg_fresh_flush; apply pt_neb_refl|exact Hg|].
+      exists n. split; [exact HA|]. unfold bound, wt in *. simpl in *. rewrite !app_length in *. simpl in *. lia.
+  - edestruct IH as (n & HA & HB); [eapply cfg_fresh_flush; apply pt_neb_refl|exact Hg|].
+    exists n. split; [exact HA|]. unfold bound, wt in *. simpl in *. rewrite !app_length in *. simpl in *. lia.
+  - edestruct IH as (n & HA & HB); [eapply cfg_fresh_need; apply pt_neb_refl|exact Hg|].
+    exists n. split; [exact HA|]. unfold bound, wt in *. simpl in *. lia.
+  - edestruct IH as (n & HA & HB); [eapply cfg_fresh_working; [apply pt_neb_refl|assumption]|exact Hg|].
+    exists n. split; [exact HA|]. unfold bound, wt in *. simpl in *. lia.
+Qed.
+
+Lemma step_nil s W m P start last ph els0 :
+  Cfg false s W m P start last ph els0 ->
+  exists n, After W (gil [] s) (P ++ flush_open m) n /\ bound n m P (flush_open m) [].
+Proof.
+  intros HC. inversion HC; subst; rewrite gil_nil; simpl.
+  - eexists. split; [apply (final_from ph seg t srem start last (e :: S) 0)|]. unfold bound, wt; simpl. lia.
+  - eexists. split; [apply (final_from ph seg t srem start last S 0)|]. unfold bound, wt; simpl. lia.
+  - eexists. split; [rewrite app_nil_r; apply (final_from init seg t srem start last (e :: P0) 0)|].
+    unfold bound, wt; simpl. rewrite app_nil_r. lia.
+  - exists 0%nat. split; [split; reflexivity|]. unfold bound, wt; simpl. lia.
+  - eexists. split; [apply (final_from init seg t srem start last [] 0)|]. unfold bound, wt; simpl. lia.
+Qed.
+
+Lemma after_close fuel r seg t srem start last o :
+  IHyp fuel r ->
+  pt_neb last start = false ->
+  spec_go fuel r start last Fresh init = Some o ->
+  exists n, Runs (mk r false init NeedInput seg t srem start last [] 0) o n /\
+            (n <= 2 * length o + 5 * length r + 2)%nat.
+Proof.
+  intros IH E Hg.
+  edestruct IH as (n & HA & HB); [eapply cfg_fresh_need; exact E|exact Hg|].
+  exists (1 + n)%nat. split; [apply need_run; exact HA|]. unfold bound, wt in HB. simpl in HB. lia.
+Qed.
+
+Lemma skipn_if (b : bool) (S : list (PathEl T)) :
+  skipn (if b then 1%nat else 0%nat) S = if b then tl S else S.
+Proof. destruct b; [destruct S|]; reflexivity. Qed.
+
+Lemma step_close_direct fuel r s W m P start last ph els0 o :
+  IHyp fuel r ->
+  Cfg false s W m P start last ph els0 ->
+  pt_neb last start = false ->
+  spec_go fuel r start last Fresh init = Some o ->
+  exists n, After W (gil (ClosePath :: r) s) (P ++ flush_closed m ph ++ o) n /\
+            bound n m P (flush_closed m ph ++ o) (ClosePath :: r).
+Proof.
+  intros IH HC E Hg. inversion HC; subst; rewrite (gil_close_direct _ _ _ _ _ _ _ _ _ _ _ E).
+  - rewrite hc_tostash.
+    destruct (@after_close fuel r seg f0 srem start last o IH E Hg) as (n & Hr & Hn).
+    eexists. split; [simpl; apply (@close_from r seg f0 srem start last ((e :: S) ++ [ClosePath]) 0 o n Hr)|].
+    unfold bound, wt. simpl. rewrite !app_length. simpl. lia.
+  - rewrite hc_working.
+    destruct (@after_close fuel r seg f0 srem start last o IH E Hg) as (n & Hr & Hn).
+    pose proof (@close_from r seg f0 srem start last S (if p_act ph then 1%nat else 0%nat) o n Hr) as L.
+    rewrite skipn_if in L.
+    eexists. split; [simpl; exact L|].
+    unfold bound, wt. simpl. rewrite !app_length.
+    assert (length S <= length (if p_act ph then tl S else S) + 1)%nat by (destruct (p_act ph), S; simpl; lia).
+    lia.
+  - rewrite hc_fromstash.
+    destruct (@after_close fuel r seg f0 srem start last o IH E Hg) as (n & Hr & Hn).
+    eexists. split; [simpl; apply (@close_from r seg f0 srem start last (e :: P0) 0 o n Hr)|].
+    unfold bound, wt. simpl. rewrite !app_length. simpl. lia.
+  - rewrite hc_need.
+    destruct (@after_close fuel r seg f0 srem start last o IH E Hg) as (n & Hr & Hn).
+    eexists. split; [simpl; apply (@close_from r seg f0 srem start last [] 0 o n Hr)|].
+    unfold bound, wt. simpl. lia.
+  - rewrite hc_working. rewrite H1.
+    destruct (@after_close fuel r seg f0 srem start last o IH E Hg) as (n & Hr & Hn).
+    eexists. split; [simpl; apply (@close_from r seg f0 srem start last [] 0 o n Hr)|].
+    unfold bound, wt. simpl. lia.
+Qed.
+
+Lemma flush_closed_wt (m : Mode) (ph : Phase T) : (wt m <= length (flush_closed m ph) + 1)%nat.
+Proof. unfold wt. destruct m as [|l|l]; simpl; [lia|rewrite app_length; simpl; lia|]. destruct (p_act ph), l; simpl; lia. Qed.
+
+Lemma step_close_seg fuel r s W m P start last ph els0 o1 m' ph' o :
+  IHyp fuel r ->
+  Cfg false s W m P start last ph els0 ->
+  pt_neb last start = true ->
+  spec_seg fuel (SegLine (mkLine last start)) m ph = Some (o1, m', ph') ->
+  spec_go fuel r start start Fresh init = Some o ->
+  exists n, After W (gil (ClosePath :: r) s) (P ++ o1 ++ flush_closed m' ph' ++ o) n /\
+            bound n m P (o1 ++ flush_closed m' ph' ++ o) (ClosePath :: r).
+Proof.
+  intros IH HC E Hs Hg.
+  pose proof (flush_closed_wt m' ph') as Hw.
+  inversion HC; subst; try congruence; rewrite (gil_close_seg _ _ _ _ _ _ _ _ _ _ _ E).
+  - edestruct seg_cfg as (k2 & sF & HC2 & HR2 & HB2); [eapply l_stashing|exact Hs|]; [eassumption|].
+    destruct (close_cfg HC2) as (k3 & seg3 & t3 & srem3 & HR3 & HB3).
+    destruct (@after_close fuel r seg3 t3 srem3 start start o IH (pt_neb_refl start) Hg) as (n & Hr & Hn).
+    exists (k2 + (k3 + n))%nat. split; [simpl; apply HR2; apply HR3; exact Hr|].
+    unfold bound. simpl. rewrite !app_length. simpl. lia.
+  - edestruct seg_cfg as (k2 & sF & HC2 & HR2 & HB2); [eapply l_broken|exact Hs|]; [eassumption|].
+    destruct (close_cfg HC2) as (k3 & seg3 & t3 & srem3 & HR3 & HB3).
+    destruct (@after_close fuel r seg3 t3 srem3 start start o IH (pt_neb_refl start) Hg) as (n & Hr & Hn).
+    exists (k2 + (k3 + n))%nat. split; [simpl; apply HR2; apply HR3; exact Hr|].
+    unfold bound. simpl. rewrite !app_length. simpl. lia.
+Qed.
+
+Lemma main_sim fuel : forall els, IHyp fuel els.
+Proof.
+  induction els as [|e r IH]; unfold IHyp; intros s W m P start last ph out HC Hg.
+  - simpl in Hg. inversion Hg; subst. eapply step_nil; eauto.
+  - destruct e as [p|p1|p1 p2|p1 p2 p3|].
+    + simpl in Hg. destruct (spec_go fuel r p p Fresh init) as [o|] eqn:Eg; [|discriminate].
+      inversion Hg; subst. eapply step_move; eauto.
+    + simpl in Hg.
+      destruct (spec_seg fuel (SegLine (mkLine last p1)) m ph) as [[[o1 m'] ph']|] eqn:Es; [|discriminate].
+      destruct (spec_go fuel r start p1 m' ph') as [o|] eqn:Eg; [|discriminate].
+      inversion Hg; subst. eapply step_seg; eauto. reflexivity.
+    + simpl in Hg.
+      destruct (spec_seg fuel (SegQuad (mkQuad last p1 p2)) m ph) as [[[o1 m'] ph']|] eqn:Es; [|discriminate].
+      destruct (spec_go fuel r start p2 m' ph') as [o|] eqn:Eg; [|discriminate].
+      inversion Hg; subst. eapply step_seg; eauto. reflexivity.
+    + simpl in Hg.
+      destruct (spec_seg fuel (SegCubic (mkCubic last p1 p2 p3)) m ph) as [[[o1 m'] ph']|] eqn:Es; [|discriminate].
+      destruct (spec_go fuel r start p3 m' ph') as [o|] eqn:Eg; [|discriminate].
+      inversion Hg; subst. eapply step_seg; eauto. reflexivity.
+    + simpl in Hg. destruct (pt_neb last start) eqn:E.
+      * destruct (spec_seg fuel (SegLine (mkLine last start)) m ph) as [[[o1 m'] ph']|] eqn:Es; [|discriminate].
+        destruct (spec_go fuel r start start Fresh init) as [o|] eqn:Eg; [|discriminate].
+        inversion Hg; subst. eapply step_close_seg; eauto.
+      * destruct (spec_go fuel r start last Fresh init) as [o|] eqn:Eg; [|discriminate].
+        inversion Hg; subst. eapply step_close_direct; eauto.
+Qed.
+
+(** the whole run from the initial state, and how many iterations of [next] it takes at most *)
+Theorem machine_spec_go fuel els out :
+  spec_go fuel els origin origin Fresh init = Some out ->
+  exists n, Runs (init_state init els) out n /\ (n <= 2 * length out + 5 * length els + 2)%nat.
+Proof.
+  intros Hg.
+  pose proof (@main_sim fuel els) as M. unfold IHyp in M.
+  edestruct M as (n & HA & HB); [eapply cfg_fresh_need; apply pt_neb_refl|exact Hg|].
+  exists (1 + n)%nat. split; [apply need_run; exact HA|].
+  unfold bound, wt in HB. simpl in HB. lia.
 Qed.
 
 End Sim.
